@@ -3,11 +3,13 @@
 The unit is a PREFIX of mj_fwdActuation: the path is verified from the function entry up to the exit of the control-check loop
 (clear actuator_force, early return when actuation is off, local copy of ctrl, clamping, the isBad scan) and stops there; the
 activation dynamics and force computation that follow are not part of the verified text."""
-from contracts import check, arena, state, sleep
+from contracts import check, arena, state, sleep, clamp
 
 DEFS = dict(check.DEFS)
+DEFS.update(clamp.DEFS)
 DEFS.update({
     'NU': 'm.nu',
+    'CLAMP_ON': '((m.opt.disableflags % 4294967296) / mjDSBL_CLAMPCTRL) % 2 == 0',
     'BADCTRL_SEEN': 'exists(lambda k: 0 <= k and k < NU and bad(entry(ctrl[k])))',
 })
 
@@ -17,8 +19,7 @@ STACK_ALLOC = {     # caller-side contract of the stack allocator (its body is v
 }
 MARK = {'assumed': True, 'requires': {}, 'assigns': ['d.pbase', 'd.pstack'], 'ensures': {}}
 READ_CTRL = {'assumed': True, 'requires': {}, 'assigns': [], 'pure': True, 'ensures': {}}       # delayed controls: any value (history buffer not modelled)
-CLAMP = {   # clampVec's own contract (C27) needs NaN-free input; here the input may be anything, so only its frame is used: it writes vec
-    'assumed': True, 'requires': {}, 'assigns': ['vec[*]'], 'ensures': {}}
+CLAMP = clamp.CLAMP_ANY     # the any-input view of clampVec, proved on its real body (props/C27.py, prefix [any-input])
 
 FWD_ACT = {
     'params': {'m': {'n': 1, 'ptrfields': {'actuator_ctrladr': {'len': 'm.nactuator'}, 'actuator_ctrlnum': {'len': 'm.nactuator'}, 'actuator_delay': {'len': 'm.nactuator'},
@@ -30,6 +31,7 @@ FWD_ACT = {
         'control_blocks': 'forall(lambda a: implies(0 <= a and a < m.nactuator, 0 <= m.actuator_ctrladr[a] and 0 <= m.actuator_ctrlnum[a] and m.actuator_ctrladr[a] + m.actuator_ctrlnum[a] <= m.nu and '
                           'implies(m.actuator_delay[a] != fp(0.0), m.actuator_ctrladr[a] < m.nu)))',
         'timer_counter_fits_an_int': 'd.timer[mjTIMER_ACTUATION].number >= 0 and d.timer[mjTIMER_ACTUATION].number < 2**31 - 1',
+        'limited_control_ranges_are_ordered': 'forall(lambda k: implies(0 <= k and k < m.nu and m.actuator_ctrllimited[k] != 0, fpLEQ(m.actuator_ctrlrange[2*k], m.actuator_ctrlrange[2*k+1])))',
         'counters': 'forall(lambda w: implies(0 <= w and w < mjNWARNING, d.warning[w].number >= 0 and d.warning[w].number < 2**31 - 2))',
     },
     'assigns': ['d.*nonptr', 'd.actuator_force[*]', 'd.qfrc_actuator[*]'],
@@ -47,6 +49,8 @@ FWD_ACT = {
                 'the_warning_names_a_bad_control': 'implies(BADCTRL_SEEN, forall(lambda q: implies(q == d.warning[mjWARN_BADCTRL].lastinfo, 0 <= q and q < NU and bad(entry(ctrl[q])))))',
                 'good_controls_pass_unchanged_and_uncounted': 'implies(not (BADCTRL_SEEN), forall(lambda k: implies(0 <= k and k < NU, ctrl[k] == entry(ctrl[k]))) and '
                                                               'forall(lambda w: implies(0 <= w and w < mjNWARNING, d.warning[w].number == old(d.warning[w].number))))',
+                'limited_controls_end_inside_ctrlrange_unless_clamping_is_disabled': 'implies(CLAMP_ON, forall(lambda k: implies(0 <= k and k < NU and m.actuator_ctrllimited[k] != 0, '
+                                                                                     'inrange(ctrl[k], m.actuator_ctrlrange[2*k], m.actuator_ctrlrange[2*k+1]) or ctrl[k] == fp(0.0))))',
                 'other_warnings_untouched': 'forall(lambda w: implies(0 <= w and w < mjNWARNING and w != mjWARN_BADCTRL, d.warning[w].number == old(d.warning[w].number)))',
             }},
     },
